@@ -212,6 +212,12 @@ structure Prefix where
   rest : Rd
   deriving Repr
 
+/-- the CIE id / CIE pointer field (`cie_offset_encoding`): always `U32` in `.eh_frame`, by format
+in `.debug_frame` -/
+def readCieId (c : Cfg) (format : Format) (rest : Rd) : Out (Nat × Rd) :=
+  if c.eh ∨ format = .dwarf32 then rest.lift (Ints.readFixed c.e 4)
+  else rest.lift (Ints.readFixed c.e 8)
+
 /-- `parse_cfi_entry_prefix`: `none` = a zero length -/
 def parsePrefix (c : Cfg) (r : Rd) : Out (Option Prefix × Rd) := do
   let offset := r.off
@@ -219,9 +225,7 @@ def parsePrefix (c : Cfg) (r : Rd) : Out (Option Prefix × Rd) := do
   if length = 0 then pure (none, r) else do
   let (rest, r) ← r.split length
   let base := rest.off
-  -- `cie_offset_encoding`: always U32 in `.eh_frame`, by format in `.debug_frame`
-  let (id, rest) ← if c.eh ∨ format = .dwarf32 then rest.lift (Ints.readFixed c.e 4)
-                   else rest.lift (Ints.readFixed c.e 8)
+  let (id, rest) ← readCieId c format rest
   pure (some { offset, length, format, cieOffsetBase := base, cieIdOrOffset := id, rest }, r)
 
 /-- `_UnwindSectionPrivate::is_cie` -/
@@ -308,26 +312,37 @@ def readCstr (r : Rd) : Out (Bytes × Rd) :=
   | none => .err .rUnexpectedEof
   | some (s, rest) => .ok (s, ⟨r.off + s.length + 1, rest⟩)
 
+/-- the address size of a CIE: read (with the segment size) when `has_address_and_segment_sizes`,
+else the section's setting -/
+def cieAddressSize (c : Cfg) (version : Nat) (rest : Rd) : Out (Nat × Rd) :=
+  if ¬ c.eh ∧ version = 4 then do
+    let (asz, rest) ← rest.lift Ints.readAddressSize
+    let (seg, rest) ← rest.u8
+    if seg ≠ 0 then .err .rUnsupportedSegmentSize else pure (asz, rest)
+  else pure (c.asz, rest)
+
+/-- the return address register: `u8` in version 1, else ULEB128 through `Register::from_u64` -/
+def cieRar (version : Nat) (rest : Rd) : Out (Nat × Rd) :=
+  if version = 1 then rest.u8 else do
+    let (v, rest) ← rest.lift Leb.unsigned
+    if v < 2 ^ 16 then pure (v, rest) else .err .rUnsupportedRegister
+
+/-- `Augmentation::parse` when the augmentation string is not empty -/
+def cieAug (c : Cfg) (bases : Bases) (asz : Nat) (augStr : Bytes) (rest : Rd) : Out (Option Aug × Rd) :=
+  if augStr.isEmpty then pure (none, rest) else do
+    let (a, rest) ← augLoop c.m c.e bases asz augStr false {} none rest
+    pure (some a, rest)
+
 /-- `CommonInformationEntry::from_prefix` -/
 def cieFromPrefix (c : Cfg) (bases : Bases) (p : Prefix) : Out Cie := do
   let (version, rest) ← p.rest.u8
   if ¬ (version = 1 ∨ version = 3 ∨ version = 4) then .err .rUnknownVersion else do
   let (augStr, rest) ← readCstr rest
-  -- `has_address_and_segment_sizes`
-  let (asz, rest) ← if ¬ c.eh ∧ version = 4 then do
-      let (asz, rest) ← rest.lift Ints.readAddressSize
-      let (seg, rest) ← rest.u8
-      if seg ≠ 0 then .err .rUnsupportedSegmentSize else pure (asz, rest)
-    else pure (c.asz, rest)
+  let (asz, rest) ← cieAddressSize c version rest
   let (caf, rest) ← rest.lift Leb.unsigned
   let (daf, rest) ← rest.lift Leb.signed
-  let (rar, rest) ← if version = 1 then rest.u8 else do
-      let (v, rest) ← rest.lift Leb.unsigned
-      -- `Register::from_u64`
-      if v < 2 ^ 16 then pure (v, rest) else .err .rUnsupportedRegister
-  let (aug, rest) ← if augStr.isEmpty then pure (none, rest) else do
-      let (a, rest) ← augLoop c.m c.e bases asz augStr false {} none rest
-      pure (some a, rest)
+  let (rar, rest) ← cieRar version rest
+  let (aug, rest) ← cieAug c bases asz augStr rest
   pure { offset := p.offset, length := p.length, format := p.format, version, aug, asz, caf, daf,
          rar, instr := rest }
 
@@ -385,22 +400,26 @@ def parseAddresses (c : Cfg) (cie : Cie) (params : PeParams) (r : Rd) : Out ((Na
     let (range, r) ← r.lift (Ints.readAddress c.e cie.asz)
     pure ((i, range), r)
 
+/-- `AugmentationData::parse` (only when the CIE has an augmentation): the LSDA pointer -/
+def fdeAugData (c : Cfg) (cie : Cie) (params : PeParams) (initial : Nat) (rest : Rd) :
+    Out (Option Ptr × Rd) :=
+  match cie.aug with
+  | some aug => do
+    let (len, rest) ← rest.lift Leb.unsigned
+    let (d, rest) ← rest.split len
+    match aug.lsda with
+    | some enc => do
+      let (ptr, _) ← parseEncodedPointer c.m c.e enc { params with funcBase := some initial } d
+      pure (some ptr, rest)
+    | none => pure (none, rest)
+  | none => pure (none, rest)
+
 /-- `FrameDescriptionEntry::parse_rest` with `get_cie = Section::cie_from_offset` -/
 def parseRest (c : Cfg) (bases : Bases) (sec : Bytes) (p : PartialFde) : Out Fde := do
   let cie ← cieFromOffset c bases sec p.cieOffset
   let params : PeParams := { bases := bases.ehFrame, funcBase := none, asz := cie.asz }
   let ((initial, range), rest) ← parseAddresses c cie params p.rest
-  let (lsda, rest) ← match cie.aug with
-    | some aug => do
-      -- `AugmentationData::parse`
-      let (len, rest) ← rest.lift Leb.unsigned
-      let (d, rest) ← rest.split len
-      match aug.lsda with
-      | some enc => do
-        let (ptr, _) ← parseEncodedPointer c.m c.e enc { params with funcBase := some initial } d
-        pure (some ptr, rest)
-      | none => pure (none, rest)
-    | none => pure (none, rest)
+  let (lsda, rest) ← fdeAugData c cie params initial rest
   pure { offset := p.offset, length := p.length, format := p.format, cie, initial, range, lsda,
          instr := rest }
 
@@ -512,6 +531,12 @@ structure Hdr where
   table : Rd
   deriving Repr
 
+/-- the `fde_count` field of `EhFrameHdr::parse` -/
+def hdrCount (e : Endian) (cntEnc tblEnc asz : Nat) (r : Rd) : Out (Nat × Rd) :=
+  if cntEnc = 0xff ∨ tblEnc = 0xff then pure (0, r)
+  else if cntEnc ≠ peFormat cntEnc then .err .rUnsupportedPointerEncoding
+  else parseEncodedValue e cntEnc asz r
+
 /-- `EhFrameHdr::parse` -/
 def parseHdr (m : Mode) (e : Endian) (bases : Bases) (asz : Nat) (sec : Bytes) : Out Hdr := do
   let r : Rd := ⟨0, sec⟩
@@ -523,9 +548,7 @@ def parseHdr (m : Mode) (e : Endian) (bases : Bases) (asz : Nat) (sec : Bytes) :
   let params : PeParams := { bases := bases.ehFrameHdr, funcBase := none, asz }
   if ptrEnc = 0xff then .err .rCannotParseOmitPointerEncoding else do
   let (ptr, r) ← parseEncodedPointer m e ptrEnc params r
-  let (cnt, r) ← if cntEnc = 0xff ∨ tblEnc = 0xff then pure (0, r)
-    else if cntEnc ≠ peFormat cntEnc then .err .rUnsupportedPointerEncoding
-    else parseEncodedValue e cntEnc asz r
+  let (cnt, r) ← hdrCount e cntEnc tblEnc asz r
   pure { asz, ehFramePtr := ptr, fdeCount := cnt, tableEnc := tblEnc, table := r }
 
 /-- `ParsedEhFrameHdr::table` is `Some` -/
